@@ -36,6 +36,13 @@ class Interval:
         if not is_place(op):
             return None
         pl = op["pl"]
+        if pl["p"]:
+            # `*r` with r = &x, `agg.k` with agg built from operands (a closure's captures), plain copies: look through to the place or operand meant
+            r = self._resolve(pl)
+            if r is not None and r is not pl:
+                if r.get("k") == "const":
+                    return self.of(r, depth + 1)
+                pl = r
         l = pl["l"]
         proj = pl["p"]
         if depth > 25 or (l, str(proj)) in self._busy:
@@ -45,6 +52,34 @@ class Interval:
             return self._local(l, proj, depth)
         finally:
             self._busy.discard((l, str(proj)))
+
+    def _resolve(self, pl):
+        """follow a projected place through reference, copy and aggregate definitions; returns a place, a constant operand, or the place unchanged"""
+        cur = pl
+        for _ in range(12):
+            if not cur["p"]:
+                return cur
+            ds = self.S.du.whole_defs(cur["l"])
+            if len(ds) != 1 or ds[0][2] != "stmt":
+                return cur
+            rhs = ds[0][3]["rhs"]
+            first = cur["p"][0]
+            if rhs["rv"] in ("ref", "rawptr") and first == "*":
+                cur = {"l": rhs["pl"]["l"], "p": list(rhs["pl"]["p"]) + list(cur["p"][1:])}
+            elif rhs["rv"] == "use" and is_place(rhs["ops"][0]):
+                q = rhs["ops"][0]["pl"]
+                cur = {"l": q["l"], "p": list(q["p"]) + list(cur["p"])}
+            elif rhs["rv"] == "agg" and isinstance(first, dict) and "f" in first and isinstance(first["f"], int) and first["f"] < len(rhs["ops"]):
+                o = rhs["ops"][first["f"]]
+                if is_place(o):
+                    cur = {"l": o["pl"]["l"], "p": list(o["pl"]["p"]) + list(cur["p"][1:])}
+                elif len(cur["p"]) == 1:
+                    return o
+                else:
+                    return cur
+            else:
+                return cur
+        return cur
 
     def _local(self, l, proj, depth):
         fn = self.fn
